@@ -612,7 +612,62 @@ def per_master_filter_section(ctx):
         compare_masters(ctx, case, out)
 
 
+def mixed_in_one_master_section(ctx):
+    """a glyph that is MIXED (contour + component) in only one master and drawn entirely as contours in the others -- the same
+    outline once resolved.  The one master is the default, another full master, or a sparse layer that does not hold the
+    component's base (which is then interpolated).  Decomposition is decided jointly: every master's glyph comes out with the
+    same contours and points"""
+    import ufo2ft
+    from fontTools.designspaceLib import SourceDescriptor
+    rng = ctx.subrng("mixed-one")
+    box = lambda x0, y0, x1, y1: [(Fr(x0), Fr(y0), "line"), (Fr(x1), Fr(y0), "line"), (Fr(x1), Fr(y1), "line"), (Fr(x0), Fr(y1), "line")]
+    one = (Fr(1), Fr(0), Fr(0), Fr(1))
+    for i in range(ctx.budget(12, 24)):
+        lib = ["ufoLib2", "defcon"][i % 2]
+        fn = ["compileInterpolatableOTFsFromDS", "compileInterpolatableTTFsFromDS"][(i // 2) % 2]
+        where = ["sparse layer", "default master", "other full master"][(i // 4) % 3]
+
+        def G_glyph(w, mixed):
+            stem = box(50, 0, 50 + w, 700)
+            if mixed:
+                return {"name": "G", "unicodes": [0x47], "width": Fr(600), "contours": [stem], "anchors": [],
+                        "components": [("bar", one + (Fr(200), Fr(300)))]}
+            return {"name": "G", "unicodes": [0x47], "width": Fr(600), "contours": [stem, box(200, 300, 200 + 2 * w, 300 + w)], "anchors": [], "components": []}
+
+        def master(k, mixed):
+            w = 80 + 60 * k
+            gl = [{"name": "bar", "unicodes": [0x2D], "width": Fr(400), "contours": [box(0, 0, 2 * w, w)], "components": [], "anchors": []}, G_glyph(w, mixed)]
+            return {"glyphs": gl, "glyphOrder": ["bar", "G"], "kerning": {}, "groups": {}, "lib": {},
+                    "info": {"familyName": "Fam", "styleName": "Master%d" % k, "unitsPerEm": 1000, "ascender": 800, "descender": -200}}
+        masters = [master(0, where == "default master"), master(2, where == "other full master")]
+        ds, fonts = dsgen.make_designspace(rng, masters, lib)
+        if where == "sparse layer":
+            layer = fonts[0].newLayer("Medium")
+            tmp = build_font({"glyphs": [G_glyph(140, True), {"name": "bar", "unicodes": [], "width": Fr(400), "contours": [], "components": [], "anchors": []}]}, lib)
+            gl = layer.newGlyph("G"); gl.width = tmp["G"].width; tmp["G"].drawPoints(gl.getPointPen())
+            sd = SourceDescriptor()
+            sd.font, sd.layerName, sd.location, sd.name = fonts[0], "Medium", {"Weight": 500}, "master.Medium"
+            sd.familyName, sd.styleName = "Fam", "Medium"
+            ds.sources.insert(1, sd)
+        case = {"function": fn, "lib": lib, "variant": "G is mixed (contour + component) only in the %s" % where, "font": jsonable(masters[0])}
+        ctx.count(); ctx.klass("%s/mixed glyph in one master only: %s" % (fn, where)); ctx.nontriv(("mix1", i, ctx.scale))
+        try:
+            res = getattr(ufo2ft, fn)(ds)
+        except Exception as e:
+            ctx.spec_failure(case, "%s raised %s: %s\n%s" % (fn, type(e).__name__, e, traceback.format_exc()[-1000:]))
+            continue
+        outs = [sd.font for sd in res.sources]
+        compare_masters(ctx, case, outs)
+        for k, f in enumerate(outs):
+            if "G" in f.getGlyphOrder():
+                st = tt_structure(f, "G")
+                n_on = sum(st[2]) if st[0] == "simple" else sum(1 for op, _n in st[1] if op in ("moveTo", "lineTo")) if st[0] == "cff" else -1
+                if st[0] == "composite" or n_on != 8:
+                    ctx.spec_failure(dict(case, master=k, structure=repr(st)[:300]), "master %d: 'G' resolves to two boxes (8 points); compiled structure %r" % (k, st))
+
+
 def explore(ctx):
+    mixed_in_one_master_section(ctx)
     per_master_filter_section(ctx)
     notdef_family_section(ctx)
     two_sparse_layers_section(ctx)
